@@ -315,6 +315,7 @@ func caseVmsaReserved(q *x) {
 			if err != nil {
 				q.viol(entryVmsa, "in-range-value-refused", nil, "PutVmsa refuses an exactly %#x-byte buffer: %v", vmsaref.Size, err)
 			} else if checkVmsaPage(q, buf, want, nil) {
+				seen("encoding-equals-reference")
 				c.Cell("VMSA|encode into exactly 0x670 bytes|accepted")
 			}
 		}
